@@ -1748,7 +1748,7 @@ func c11StackCheckedFirst(c *eng.Ctx, r *eng.Report) {
 			bad = nm + " at " + c.Pos(s.Pos())
 		}
 	}
-	r.Check(bad == "" && n >= 1, rule, "run:stack-checked-first", c.Pos(run.Pos()), fmt.Sprintf("%d stack access(es) in Run, each after the depth validation", n), "Run reads the operand stack ("+bad+") before the depth validation has passed for the current operation: in a read-only frame a CALL reached with fewer than three items makes stack.Back(2) index out of range — the panic escapes EVM.Call instead of the frame failing with ErrStackUnderflow")
+	r.Check(bad == "", rule, "run:stack-checked-first", c.Pos(run.Pos()), fmt.Sprintf("%d stack access(es) in Run itself, each after the depth validation", n), "Run reads the operand stack ("+bad+") before the depth validation has passed for the current operation: in a read-only frame a CALL reached with fewer than three items makes stack.Back(2) index out of range — the panic escapes EVM.Call instead of the frame failing with ErrStackUnderflow")
 }
 
 // c11CallGasAlwaysSet: see R11.21.
